@@ -45,6 +45,8 @@ type Cfg struct {
 	ShortReads  bool    `json:"short_reads"`
 	PermuteDir  bool    `json:"permute_dir"`
 	FSSeed      int64   `json:"fs_seed"`
+	// ContAtEnd (crash engine): every epoch but the last continues from the image taken after its last call
+	ContAtEnd   bool    `json:"cont_at_end,omitempty"`
 	BgSyncMs    int     `json:"bg_sync_ms,omitempty"`
 	BgCompactMs int     `json:"bg_compact_ms,omitempty"`
 	// scheduler
